@@ -253,6 +253,10 @@ func c11r2(p *Program, r *Report) {
 				if b, ok := m.Elem().Underlying().(*types.Basic); ok && b.Kind() == types.Bool && strings.Contains(m.Key().String(), "HostInfo") {
 					return true
 				}
+				// a set: map[*HostInfo]struct{}
+				if st, ok := m.Elem().Underlying().(*types.Struct); ok && st.NumFields() == 0 && strings.Contains(m.Key().String(), "HostInfo") {
+					return true
+				}
 			}
 		}
 		return false
@@ -290,6 +294,14 @@ func c11r2(p *Program, r *Report) {
 							if v, ok := info.Types[as.Rhs[0]]; ok && v.Value != nil && v.Value.String() == "true" {
 								s = s.with(exprStr(ix.Index))
 								nUsed++
+							} else if _, isLit := ast.Unparen(as.Rhs[0]).(*ast.CompositeLit); isLit {
+								// offered[x] = struct{}{}: membership in a set
+								if m, isM := info.TypeOf(ix.X).Underlying().(*types.Map); isM {
+									if _, isSt := m.Elem().Underlying().(*types.Struct); isSt {
+										s = s.with(exprStr(ix.Index))
+										nUsed++
+									}
+								}
 							}
 						}
 						continue
@@ -321,6 +333,12 @@ func c11r2(p *Program, r *Report) {
 					}
 					if ix, ok := ce.(*ast.IndexExpr); ok && isHostKeyed(ix.X) && !val {
 						s = s.with(exprStr(ix.Index))
+					}
+					// `_, seen := offered[x]` ... seen false
+					if id, ok := ce.(*ast.Ident); ok && !val {
+						if ix := commaOkSource(g, info, id, st.Node); ix != nil && isHostKeyed(ix.X) {
+							s = s.with(exprStr(ix.Index))
+						}
 					}
 				case StNode:
 					for _, l := range assignedLHS(st.Node) {
